@@ -24,8 +24,9 @@ XI_OFFSET = 338
 
 
 class Codec:
-    def __init__(self, kind, word, spb, maxch=1, offset=0, raw=False, lossless=None, **kw):
+    def __init__(self, kind, word, spb, maxch=1, offset=0, raw=False, lossless=None, wav=False, **kw):
         self.kind, self.word, self.spb, self.maxch, self.offset, self.raw = kind, word, spb, maxch, offset, raw
+        self.wav = wav
         self.lossless = lossless or {}      # caller type -> number of low bits that must be zero
         self.kw = kw
 
@@ -47,6 +48,9 @@ def codecs(ctx):
         Codec("dpcm8", 0x0F0050, 1, offset=XI_OFFSET, lossless={"s16": 8, "s32": 24}),
         Codec("dpcm16", 0x0F0051, 1, offset=XI_OFFSET, lossless={"s16": 0, "s32": 16}),
         Codec("vox", 0x040021, 2, raw=True),
+        # reader-only models (the encoders are not modelled): WAV IMA / MS ADPCM, blocks decoded by SfModel/Adpcm.lean
+        Codec("imawav", 0x010012, 505, maxch=2, wav=True),
+        Codec("mswav", 0x010013, 500, maxch=2, wav=True),
     ]
 
 
@@ -62,11 +66,6 @@ class Job:
         c = self.codec
         if c.kind == "vox" and any(len(v) % 2 for (_, _, _, v) in self.calls):
             out.add("KF-VOX-ODD")
-        if c.kind == "paf24" and 2048 % self.ch != 0:
-            if any(ty != "s32" and len(v) > 2048 for (ty, _, _, v) in self.calls):
-                out.add("KF-PAF24-CHUNK")
-            if any(op[0] == "r" and op[1] != "s32" and op[3] * (self.ch if op[2] == "f" else 1) > 2048 for op in self.rops):
-                out.add("KF-PAF24-CHUNK")
         return out
 
     def harness_script(self):
@@ -88,6 +87,13 @@ class Job:
 
     def model_script(self, filehex):
         c = self.codec
+        if c.wav:
+            geo = wav_geometry(filehex or "")
+            lines = ["codec %s ch=%d ba=%d spb=%d" % (c.kind, self.ch, geo[0], geo[1]) + "".join(" %s=%d" % (k, v) for k, v in sorted(self.flags.items()))]
+            lines.append("load " + geo[2])
+            for op in self.rops:
+                lines.append(("r %s %s %d" % (op[1], op[2], op[3])) if op[0] == "r" else ("seek %d %d" % (op[1], op[2])))
+            return "\n".join(lines) + "\n"
         head = "codec %s ch=%d sr=%d" % (c.kind, self.ch, self.sr)
         head += "".join(" %s=%s" % (k, v) for k, v in sorted(c.kw.items()))
         head += "".join(" %s=%d" % (k, v) for k, v in sorted(self.flags.items()))
@@ -102,6 +108,25 @@ class Job:
             else:
                 lines.append("seek %d %d" % (op[1], op[2]))
         return "\n".join(lines) + "\n"
+
+
+def wav_geometry(filehex):
+    """(blockalign, samplesperblock, data region hex) of a WAV file with an ADPCM 'fmt ' chunk"""
+    b = bytes.fromhex(filehex)
+    ba = spb = 0
+    data = b""
+    k = 12
+    while k + 8 <= len(b):
+        cid, size = b[k:k + 4], int.from_bytes(b[k + 4:k + 8], "little")
+        body = b[k + 8:k + 8 + size]
+        if cid == b"fmt " and len(body) >= 20:
+            ba = int.from_bytes(body[12:14], "little")
+            spb = int.from_bytes(body[18:20], "little")
+        if cid == b"data":
+            data = body
+            break
+        k += 8 + size + (size & 1)
+    return ba, spb, data.hex()
 
 
 def split_calls(rng, n, ch, tys, big_ok=True):
@@ -170,12 +195,17 @@ def make_jobs(ctx, njobs, quick):
         flags = {}
         if rng.random() < 0.3:
             flags = {"normF": rng.choice([0, 1]), "normD": rng.choice([0, 1])}
+        if c.wav:
+            from . import geometry as G
+            c = Codec(c.kind, c.word, G.block_frames(formats.Fmt(c.word, 2), ch, sr), maxch=2, wav=True)
         n = pick_n(rng, c.spb, quick)
+        if c.wav:
+            n = min(n, 12 * c.spb + 3)
         if c.kind.startswith("dpcm") and rng.random() < 0.15:
             n = rng.randrange(8000, 20000)          # beyond the 8192-byte staging buffer of xi.c
         if c.kind == "vox" and rng.random() < 0.8:
             n -= n % 2
-        kind = rng.choice(["roundtrip", "partition", "stream"])
+        kind = rng.choice(["roundtrip", "partition", "stream"]) if not c.wav else "stream"
         if kind == "roundtrip" and c.lossless:
             tys = [rng.choice(sorted(c.lossless))]
         elif rng.random() < 0.5:
@@ -197,10 +227,12 @@ def make_jobs(ctx, njobs, quick):
         F = nfr
         if c.kind == "paf24":
             F = (nfr + 9) // 10 * 10
+        if c.wav:
+            F = (nfr + c.spb - 1) // c.spb * c.spb
         if c.kind == "vox":
             F = 2 * sum((len(v) + 1) // 2 for (_, _, _, v) in calls)
         rty = tys[0] if kind == "roundtrip" else rng.choice(TYS)
-        seekable = c.kind in ("paf24", "sds")
+        seekable = c.kind in ("paf24", "sds") or c.wav
         rops = read_ops(rng, c, ch, F, rty, seekable and kind == "stream", 30 if quick else 60)
         partread = False
         if not seekable and kind == "stream":
@@ -292,7 +324,9 @@ def analyse(job, hs, impl, model, twins):
     for k, (op, out) in enumerate(zip(sl, impl)):
         t = op.split()
         m = None
-        if t[0] in ("w", "r", "seek"):
+        if t[0] in ("w", "dump") and c.wav:
+            m = None            # the encoder is not modelled: nothing to compare on the write side
+        elif t[0] in ("w", "r", "seek"):
             m = model[mi] if mi < len(model) else "<missing>"
             mi += 1
         elif t[0] == "dump":
@@ -311,7 +345,7 @@ def analyse(job, hs, impl, model, twins):
                 if kv(m).get("frames") != str(F):
                     probs.append(Problem(job, "corr", "frames", "frames after re-open", k, out, m))
         elif t[0] == "w":
-            if S.normalise(out) != S.normalise(m):
+            if m is not None and S.normalise(out) != S.normalise(m):
                 probs.append(Problem(job, "corr", "write", "write return value", k, out, m))
             want = int(t[4])
             if kv(out).get("ret") != str(want):
@@ -319,6 +353,8 @@ def analyse(job, hs, impl, model, twins):
         elif t[0] == "dump":
             hexs = out.split("hex=")[1] if "hex=" in out else ""
             info["filehex"] = hexs
+            if m is None:
+                continue
             data = hexs if c.kind == "sds" else hexs[2 * c.offset:]
             info["datahex"] = data
             md = m.split("data=")[1] if "data=" in m else "?"
@@ -370,7 +406,7 @@ def analyse(job, hs, impl, model, twins):
             if t[0] == "seek":
                 off, wh = int(t[2]), int(t[3])
                 target = off if wh == 0 else pos + off if wh == 1 else F + off
-                if c.kind not in ("paf24", "sds"):
+                if c.kind not in ("paf24", "sds") and not c.wav:
                     continue
                 if 0 <= target <= F:
                     if ret != target:
@@ -408,7 +444,7 @@ def campaign(ctx, njobs, cats):
         filehex = None
         if dump is not None:
             hx = dump.split("hex=")[1]
-            filehex = hx if j.codec.kind == "sds" else hx[2 * j.codec.offset:]
+            filehex = hx if (j.codec.kind == "sds" or j.codec.wav) else hx[2 * j.codec.offset:]
         ms.append((j.name, j.model_script(filehex)))
     model = run_model(ctx, ms)
     stats = collections.Counter()
